@@ -709,5 +709,5 @@ def gen(ch, tier):
 
 def plan(tier):
     if tier == "quick":
-        return {"streams": {"main": 4000}, "shards": 16}
+        return {"streams": {"main": 6400}, "shards": 16}
     return {"streams": {"main": 80000}, "shards": 16}
